@@ -148,6 +148,68 @@ pub fn run(ctx: &Ctx) -> i32 {
         done_stmts += 1;
     }
     col.layer("stateright-bfs per statement", done_stmts, complete, json!({"statements": stmts.len(), "depth": depth, "alphabet": jlines(), "states_per_statement": seq_count(k as u64, depth as u32)}));
+    // the real FollowFileExecutor (child processes): the sequence of tables it draws for an aggregate statement (each
+    // preceded by the clear-screen sequence) must be the sequence of tables of the engine-level incremental run, and the
+    // last one the batch result
+    {
+        let al = jlines();
+        let fstmts = ["SELECT k, COUNT(*), SUM(v) FROM t GROUP BY k", "SELECT COUNT(*), MAX(s) FROM t", "SELECT k, COUNT(*) FROM t GROUP BY k HAVING MAX(v) < 3", "SELECT DISTINCT COUNT(*) FROM t GROUP BY k", "SELECT k, v FROM t WHERE v > 1"];
+        let mut nf = 0u64;
+        let kq = al.len() as u64;
+        for idx in 0..seq_count(kq, 3) {
+            let hist = seq_decode(idx, kq, 3);
+            if hist.is_empty() {
+                continue;
+            }
+            let lines: Vec<&str> = hist.iter().map(|i| al[*i as usize]).collect();
+            let chunks: Vec<Vec<u8>> = lines.iter().map(|l| format!("{}\n", l).into_bytes()).collect();
+            for text in fstmts {
+                let st = sut::parse(text).unwrap();
+                let expected: Vec<Vec<String>> = match sut::run_incremental(&tables, &st, &lines) {
+                    Outcome::Ok(steps) => steps.iter().filter_map(|s| s.table.as_ref()).map(|t| {
+                        t.rows.iter().map(|r| {
+                            let m: serde_json::Map<String, J> = t.columns.iter().cloned().zip(r.iter().map(|v| match v { sut::RVal::Null => J::Null, sut::RVal::Int(i) => json!(i), sut::RVal::Real(x) => json!(x), sut::RVal::Bool(b) => json!(b), sut::RVal::Text(s) => json!(s), other => json!(format!("{:?}", other)) })).collect();
+                            serde_json::to_string(&m).unwrap()
+                        }).collect()
+                    }).collect(),
+                    _ => continue,
+                };
+                let (delivered, end, ok) = crate::checks::c10::follow_child_def(true, b"", &chunks, text, -1, Some(JDEF));
+                // split the printed lines into tables at the clear-screen sequence (aggregates); non-aggregates: one table per row batch
+                let mut got: Vec<Vec<String>> = Vec::new();
+                if st.is_aggregate() {
+                    for part in delivered.join("\n").split("\u{1b}[2J\u{1b}[1;1H") {
+                        got.push(part.lines().filter(|l| !l.is_empty()).map(|l| l.to_string()).collect());
+                    }
+                } else {
+                    for l in &delivered {
+                        got.push(vec![l.clone()]);
+                    }
+                }
+                // an empty table is drawn as a bare clear-screen sequence (no line at all): align by dropping empty expected tables
+                let exp_nonempty: Vec<Vec<String>> = expected.iter().filter(|t| !t.is_empty()).cloned().collect();
+                let got_cmp: Vec<Vec<String>> = got.iter().map(|t| t.iter().filter(|l| !l.is_empty()).cloned().collect::<Vec<_>>()).filter(|t: &Vec<String>| !t.is_empty()).collect();
+                nf += 1;
+                col.eval(1);
+                col.traces_validated.fetch_add(1, std::sync::atomic::Ordering::Relaxed);
+                if exp_nonempty.len() >= 2 {
+                    col.nontrivial(h64(&("follow-agg", text, &hist)));
+                }
+                // timestamps are printed in their text form: compare only statements without timestamp columns (the corpus above has none)
+                if got_cmp != exp_nonempty || end != "ok" || !ok {
+                    col.fail(fail(
+                        format!("follow-executor:tables-differ:{}", if st.is_aggregate() { "aggregate" } else { "select" }),
+                        format!("FollowFileExecutor `{}` over {:?}: drew {:?}, the engine shows {:?} (end={})", text, hist, got_cmp, exp_nonempty, end),
+                        json!({"layer": "follow-executor", "statement": text, "history": hist}),
+                        json!(exp_nonempty),
+                        json!(got_cmp),
+                        hist.len() as u64,
+                    ));
+                }
+            }
+        }
+        col.layer("FollowFileExecutor tables (child processes)", nf, true, json!({"statements": fstmts.len(), "max_history": 3}));
+    }
     finish(
         ctx,
         &col,
@@ -163,6 +225,10 @@ pub fn run(ctx: &Ctx) -> i32 {
 
 pub fn replay(case: &J) -> Vec<Failure> {
     let tables = sut::make_tables(&format!("{}\n{}\n{}", JDEF, JDEF_U, RDEF)).unwrap();
+    if case["layer"].as_str() == Some("follow-executor") {
+        println!("note: follow-executor cases are replayed by re-running `./check C11 quick`");
+        return vec![];
+    }
     let hist: Vec<u8> = case["history"].as_array().unwrap().iter().map(|x| x.as_u64().unwrap() as u8).collect();
     check_history(&tables, case["statement"].as_str().unwrap(), case["stmt"].as_u64().unwrap() as usize, &hist).0
 }
